@@ -53,7 +53,9 @@ class _Cexptrk_Potential_Function(object):
 
   def __call__(self, *args):
     parameter_names = self._potential_form_tuple.signature.parameter_names
-    assert len(args) == len(parameter_names)
+    if len(args) != len(parameter_names):
+      raise Potential_Form_Exception("potential-form '{label}' was called with {given} argument(s), expected usage: '{label}({params})'".format(
+        label = self._potential_form_tuple.signature.label, given = len(args), params = ",".join(parameter_names)))
     for (pn, v) in zip(parameter_names, args):
       self._local_symbol_table.variables[pn] = v
 
